@@ -1,4 +1,4 @@
-(* T02 / CreateFile (Create; Write; Close) on a name that is not an existing regular file. *)
+(* T02 / CreateFile (Create; Write; Close): new names, directories and existing regular files. *)
 From Coq Require Import List NArith ZArith Bool Lia.
 From Coq Require Import ZifyN ZifyBool.
 Import ListNotations.
@@ -109,24 +109,26 @@ Definition create_flags : oflag := {| o_acc := 2; o_append := false; o_create :=
 Lemma coverlay_nil d : clen (coverlay [] 0 d) = clen d.
 Proof. unfold coverlay. cbn. rewrite app_nil_r. reflexivity. Qed.
 
-Theorem T02_create_file s n d : Wf hr c s -> hbok s -> good n -> clen d < 10 ^ 40 ->
-  match lookup (abs s) n with Some v => is_dir v = true | None => True end ->
+(* the name does not exist or is a directory - or the parent is missing / not a directory, whatever the name is *)
+Lemma create_file_new s n d : Wf hr c s -> hbok s -> good n -> clen d < 10 ^ 40 ->
+  (spec_parent (abs s) n = OOk -> match lookup (abs s) n with Some v => is_dir v = true | None => True end) ->
   exists s' cid, step c s (CCreateFile n d) = (s', snd (spec_create_file c (abs s) n (clen d) (clk s) cid)) /\
     Wf hr c s' /\ hbok s' /\ ns_eq (abs s') (fst (spec_create_file c (abs s) n (clen d) (clk s) cid)).
 Proof.
-  intros HW Hhb G Hlen Hnew. pose proof (wf_inv hr c s HW) as HI. pose proof (iv_li hr c s HI) as HL.
+  intros HW Hhb G Hlen Hnew0. pose proof (wf_inv hr c s HW) as HI. pose proof (iv_li hr c s HI) as HL.
   assert (Hrows : Forall rowok (rows (db s))) by apply HL.
   assert (Hnd : NoDup (map r_name (rows (db s)))) by apply HL.
   cbn [step]. unfold fs_create. rewrite Hro.
   destruct n as [|n0 n'] eqn:Enn; [exfalso; exact (good_nonempty [] G eq_refl)|]. rewrite <- Enn in *. clear Enn.
   rewrite (path_clean_good n G).
   rewrite (parent_check_exact hr s n HL (good_abs n G)).
-  unfold spec_create_file, spec_parent. rewrite (lookup_abs hr c s _ HI). unfold look.
-  destruct (find_rows (rows (db s)) (path_dir n)) as [pd|] eqn:Ep; cbn [option_map].
+  unfold spec_create_file, spec_parent. unfold spec_parent in Hnew0. rewrite (lookup_abs hr c s _ HI) in Hnew0 |- *. unfold look in Hnew0 |- *.
+  destruct (find_rows (rows (db s)) (path_dir n)) as [pd|] eqn:Ep; cbn [option_map] in Hnew0 |- *.
   2:{ exists s, (0, 0). split; [reflexivity|]. apply same_state; assumption. }
-  change (is_dir (node_of pd)) with (r_tf pd =? TypeDir).
+  change (is_dir (node_of pd)) with (r_tf pd =? TypeDir) in Hnew0 |- *.
   destruct (r_tf pd =? TypeDir) eqn:Ed.
   2:{ exists s, (0, 0). split; [reflexivity|]. apply same_state; assumption. }
+  pose proof (Hnew0 eq_refl) as Hnew. clear Hnew0.
   unfold fs_openfile. destruct n as [|n2 n3] eqn:Enn; [exfalso; exact (good_nonempty [] G eq_refl)|]. rewrite <- Enn in *. clear Enn.
   rewrite (path_clean_good n G).
   rewrite (stat_false_exact hr s n HL G).
@@ -172,39 +174,42 @@ Proof.
     unfold handle_close.
     match goal with |- context [flush_hdr ?h _] => set (hd := h) end.
     set (bb := coverlay [] 0 d).
-    destruct (update_content_exact s1 (flush_hdr hd (clen bb)) bb nr HI1 Hhb1) as (s2 & rec2 & blk2 & enc & E2 & HI2 & Hhb2 & Edb2).
-    { exact G. } { reflexivity. } { reflexivity. } { unfold bb. cbn [h_size flush_hdr]. rewrite coverlay_nil. exact Hlen. } { exact Fn1. }
+    set (fh := stamp_mtime (flush_hdr hd (clen bb)) (clk s1)).
+    destruct (update_content_exact s1 fh bb nr HI1 Hhb1) as (s2 & rec2 & blk2 & enc & E2 & HI2 & Hhb2 & Edb2).
+    { exact G. } { reflexivity. } { reflexivity. } { unfold fh, bb. cbn [h_size stamp_mtime flush_hdr]. rewrite coverlay_nil. exact Hlen. } { exact Fn1. }
     rewrite E2. exists s2, (rec2, blk2). split; [reflexivity|].
-    change (h_name (flush_hdr hd (clen bb))) with n in Edb2. change (h_size (flush_hdr hd (clen bb))) with (clen bb) in Edb2.
-    set (fr := row_of_hdr rec2 rec2 blk2 blk2 (with_size_name (content_hdr (flush_hdr hd (clen bb)) enc) (clen bb) n)) in *.
+    change (h_name fh) with n in Edb2. change (h_size fh) with (clen bb) in Edb2.
+    set (fr := row_of_hdr rec2 rec2 blk2 blk2 (with_size_name (content_hdr fh enc) (clen bb) n)) in *.
     assert (Hrows1 : Forall rowok (rows (db s1))) by apply HL1.
     assert (Hnd1 : NoDup (map r_name (rows (db s1)))) by apply HL1.
     split; [|split; [exact Hhb2|]].
     + split; [exact HI2|]. rewrite Edb2, with_rows_rows. apply replace_row_Forall; [apply HW1|].
       unfold fr. apply size_ok_row_of_hdr.
       * unfold hsize, content_hdr, upd_pax. cbn [h_pax with_size_name set_pax]. paxs.
-        apply undecimal_decimal_eq. unfold bb. cbn [h_size flush_hdr]. rewrite coverlay_nil. exact Hlen.
+        apply undecimal_decimal_eq. unfold fh, bb. cbn [h_size stamp_mtime flush_hdr]. rewrite coverlay_nil. exact Hlen.
       * unfold content_hdr, upd_pax. cbn [h_pax with_size_name set_pax]. paxs. discriminate.
     + intro m. cbn [fst snd]. rewrite (lookup_abs hr c s2 m HI2), Edb2, with_rows_rows.
       rewrite look_replace; [|exact Hrows1|exact Hnd1|reflexivity|eapply find_rows_has; exact Fn1].
       rewrite lookup_ns_set. rewrite <- (lookup_abs hr c s1 m HI1), (Ea1 m), lookup_ns_set.
       destruct (eqb_str m n); [|reflexivity]. change (live fr) with true. cbn iota. f_equal.
-      unfold fr, node_of, file_node, bb, hd, nr. cbn -[coverlay clen perm_bits N.pow]. rewrite coverlay_nil, !perm_bits_idem. reflexivity.
+      unfold fr, fh, node_of, file_node, bb, hd, nr. cbn -[coverlay clen perm_bits N.pow]. rewrite coverlay_nil, !perm_bits_idem, Eclk. reflexivity.
 Qed.
-(* ---------- what the implementation does on an EXISTING regular file (the corner T02Counter.v (2)): the content,
-   size and content position are replaced and mode, owner, group, access and change time are kept, all as in the
-   reference, but the modification time is kept too (the reference stamps it); nothing at all happens when the file
-   is empty and nothing is written *)
-Definition flushed_node (size : N) (cid : N * N) (v : node) : node :=
+(* ---------- an EXISTING regular file: content, size and content position are replaced, the modification time is
+   the clock's (the flush stamps it, Fs.stamp_mtime) and mode, owner, group, access and change time are kept - the
+   reference's [spec_create_file]; nothing at all happens when the file is empty and nothing is written (the corner
+   T02Counter.v (2): the reference stamps the modification time there too) *)
+Definition flushed_node (size : N) (now : Z) (cid : N * N) (v : node) : node :=
   {| n_tf := TypeReg; n_size := size; n_mode := n_mode v; n_uid := n_uid v; n_gid := n_gid v;
      n_uname := n_uname v; n_gname := n_gname v;
-     n_mtime := n_mtime v; n_atime := n_atime v; n_ctime := n_ctime v; n_cid := cid |}.
+     n_mtime := now; n_atime := n_atime v; n_ctime := n_ctime v; n_cid := cid |}.
+
+Definition no_content (d : content) : bool := match d with [] => true | _ => false end.
 
 Theorem T02_create_existing s n d v : Wf hr c s -> hbok s -> good n -> clen d < 10 ^ 40 ->
   lookup (abs s) n = Some v -> is_dir v = false -> spec_parent (abs s) n = OOk ->
   exists s' cid, step c s (CCreateFile n d) = (s', OOk) /\ Wf hr c s' /\ hbok s' /\
-    ns_eq (abs s') (if (n_size v =? 0) && (clen d =? 0) && match d with [] => true | _ => false end
-                    then abs s else ns_upd (abs s) n (flushed_node (clen d) cid)).
+    ns_eq (abs s') (if (n_size v =? 0) && no_content d
+                    then abs s else ns_upd (abs s) n (flushed_node (clen d) (clk s) cid)).
 Proof.
   intros HW Hhb G Hlen Hv Hnd Hpar. pose proof (wf_inv hr c s HW) as HI. pose proof (iv_li hr c s HI) as HL.
   assert (Hrows : Forall rowok (rows (db s))) by apply HL.
@@ -231,33 +236,34 @@ Proof.
   set (fl := {| fl_read := true; fl_write := true; fl_append := false; fl_trunc := true |}).
   (* flushing a buffer of the size of d *)
   assert (FLUSH : forall buf bb, clen bb = clen d ->
-     exists s' cid, update_op c s [{| f_hdr := flush_hdr {| hd_path := n; hd_link := []; hd_flags := fl; hd_info := hdr_of_row d0; hd_buf := buf |} (clen bb);
+     exists s' cid, update_op c s [{| f_hdr := stamp_mtime (flush_hdr {| hd_path := n; hd_link := []; hd_flags := fl; hd_info := hdr_of_row d0; hd_buf := buf |} (clen bb)) (clk s);
                                       f_data := bb |}] true true = (s', OOk) /\ Wf hr c s' /\ hbok s' /\
-       ns_eq (abs s') (ns_upd (abs s) n (flushed_node (clen d) cid))).
+       ns_eq (abs s') (ns_upd (abs s) n (flushed_node (clen d) (clk s) cid))).
   { intros buf bb Hbb.
     set (hd := {| hd_path := n; hd_link := []; hd_flags := fl; hd_info := hdr_of_row d0; hd_buf := buf |}).
-    destruct (update_content_exact s (flush_hdr hd (clen bb)) bb d0 HI Hhb) as (s2 & rec2 & blk2 & enc & E2 & HI2 & Hhb2 & Edb2).
-    { exact G. } { reflexivity. } { reflexivity. } { cbn [h_size flush_hdr]. rewrite Hbb. exact Hlen. } { exact En. }
+    set (fh := stamp_mtime (flush_hdr hd (clen bb)) (clk s)).
+    destruct (update_content_exact s fh bb d0 HI Hhb) as (s2 & rec2 & blk2 & enc & E2 & HI2 & Hhb2 & Edb2).
+    { exact G. } { reflexivity. } { reflexivity. } { unfold fh. cbn [h_size stamp_mtime flush_hdr]. rewrite Hbb. exact Hlen. } { exact En. }
     exists s2, (rec2, blk2). split; [exact E2|].
-    change (h_name (flush_hdr hd (clen bb))) with n in Edb2. change (h_size (flush_hdr hd (clen bb))) with (clen bb) in Edb2.
-    set (fr := row_of_hdr rec2 rec2 blk2 blk2 (with_size_name (content_hdr (flush_hdr hd (clen bb)) enc) (clen bb) n)) in *.
+    change (h_name fh) with n in Edb2. change (h_size fh) with (clen bb) in Edb2.
+    set (fr := row_of_hdr rec2 rec2 blk2 blk2 (with_size_name (content_hdr fh enc) (clen bb) n)) in *.
     split; [|split; [exact Hhb2|]].
     - split; [exact HI2|]. rewrite Edb2, with_rows_rows. apply replace_row_Forall; [apply HW|].
       unfold fr. apply size_ok_row_of_hdr.
       + unfold hsize, content_hdr, upd_pax. cbn [h_pax with_size_name set_pax]. paxs.
-        apply undecimal_decimal_eq. cbn [h_size flush_hdr]. rewrite Hbb. exact Hlen.
+        apply undecimal_decimal_eq. unfold fh. cbn [h_size stamp_mtime flush_hdr]. rewrite Hbb. exact Hlen.
       + unfold content_hdr, upd_pax. cbn [h_pax with_size_name set_pax]. paxs. discriminate.
     - intro m. rewrite (lookup_abs hr c s2 m HI2), Edb2, with_rows_rows.
       rewrite look_replace; [|exact Hrows|exact Hndn|reflexivity|eapply find_rows_has; exact En].
       rewrite lookup_ns_upd, !(lookup_abs hr c s _ HI). unfold look at 2. rewrite En. cbn [option_map].
       destruct (eqb_str m n); [|reflexivity]. change (live fr) with true. cbn iota. f_equal.
-      unfold fr, node_of, flushed_node, hd. cbn -[clen perm_bits N.pow]. rewrite Hbb, !perm_bits_idem. reflexivity. }
+      unfold fr, fh, node_of, flushed_node, hd. cbn -[clen perm_bits N.pow]. rewrite Hbb, !perm_bits_idem. reflexivity. }
   unfold write_close.
   destruct (r_size d0 =? 0) eqn:Esz; cbn [negb andb].
   - (* an empty file: the handle has no buffer *)
     destruct d as [|p0 dr].
-    + cbn [hd_buf handle_close clen fold_right N.eqb andb]. exists s, (0, 0). split; [reflexivity|]. apply same_state; assumption.
-    + rewrite andb_false_r. remember (p0 :: dr) as d eqn:Ed0. clear Ed0 p0 dr.
+    + cbn [hd_buf handle_close no_content]. exists s, (0, 0). split; [reflexivity|]. apply same_state; assumption.
+    + cbn [no_content]. remember (p0 :: dr) as d eqn:Ed0. clear Ed0 p0 dr.
       unfold handle_write_all. cbn [hd_info hd_flags hd_buf hd_path fl fl_write fl_append fl_trunc negb].
       change (h_tf (hdr_of_row d0)) with (r_tf d0). rewrite Hnd. cbn iota.
       rewrite (stat_false_exact hr s n HL G), En.
@@ -270,5 +276,27 @@ Proof.
       unfold handle_write_all. cbn [hd_info hd_flags hd_buf hd_path fl fl_write fl_append fl_trunc negb].
       change (h_tf (hdr_of_row d0)) with (r_tf d0). rewrite Hnd. cbn iota.
       unfold handle_close. apply FLUSH. apply coverlay_nil.
+Qed.
+
+(* ---------- CreateFile, all cases: the reference's outcome and namespace, unless nothing is written to an existing
+   EMPTY regular file (then nothing happens: [T02_create_existing]) *)
+Theorem T02_create_file s n d : Wf hr c s -> hbok s -> good n -> clen d < 10 ^ 40 ->
+  match lookup (abs s) n with
+  | Some v => is_dir v = true \/ (n_size v =? 0) && no_content d = false
+  | None => True end ->
+  exists s' cid, step c s (CCreateFile n d) = (s', snd (spec_create_file c (abs s) n (clen d) (clk s) cid)) /\
+    Wf hr c s' /\ hbok s' /\ ns_eq (abs s') (fst (spec_create_file c (abs s) n (clen d) (clk s) cid)).
+Proof.
+  intros HW Hhb G Hlen Hpre.
+  destruct (spec_parent (abs s) n) eqn:Epar;
+    try (apply create_file_new; try assumption; rewrite Epar; discriminate).
+  destruct (lookup (abs s) n) as [v|] eqn:Ev;
+    [|apply create_file_new; try assumption; rewrite Ev; intros _; exact I].
+  destruct (is_dir v) eqn:Edir;
+    [apply create_file_new; try assumption; rewrite Ev; intros _; exact Edir|].
+  destruct Hpre as [Hpre|Hpre]; [discriminate|].
+  destruct (T02_create_existing s n d v HW Hhb G Hlen Ev Edir Epar) as (s' & cid & E & HW' & Hhb' & Eq).
+  exists s', cid. unfold spec_create_file. rewrite Epar, Ev, Edir. cbn [fst snd].
+  split; [exact E|]. split; [exact HW'|]. split; [exact Hhb'|]. rewrite Hpre in Eq. exact Eq.
 Qed.
 End Create.
